@@ -279,6 +279,16 @@ func imageconvCmd(args []string) error {
 			}
 		}
 	}
+	// few rows, many columns, far more workers than rows: the call returns only when all its own
+	// workers have finished (the result is compared the moment it returns)
+	for _, k := range kinds {
+		if k != "RGBA64" && k != "NRGBA" && k != "RGBA" && k != "YCbCr444" && k != "YCbCr420" {
+			continue
+		}
+		for hi, h := range helpers {
+			sjobs = append(sjobs, sjob{k, image.Rect(0, 0, 30000, 3), [4]int{0, 0, 0, 0}, h, []int{64, 16, 33}[hi%3]})
+		}
+	}
 	runStruct := parallel
 	if *serial != "" {
 		mf, err := os.Create(*serial)
